@@ -239,7 +239,7 @@ def completeAnswer (c : Case) (pre : List Nat) : String :=
 
 def tieVerdict (c : Case) : String :=
   if c.nodump then "NODUMP" else
-  if c.hasLook then "LOOK" else
+  if c.hasLook then (if c.looksOK then LK.tieVerdictC c.prios.toList c.resL 4000 else "LOOK") else
   let D := c.res
   let prios := c.prios.toList
   match tieSearch prios #[(D, [])] 0 (({} : Std.HashSet Vec).insert D) 100000 with
@@ -344,7 +344,12 @@ def answer (c : Case) (q : List String) : String :=
   | ["CLSOK"] => " ".intercalate (c.hirs.toList.map fun h => if h.clsOK then "1" else "0")
   | ["GREEDY"] => " ".intercalate (c.hirs.toList.map fun h => if h.greedyFixed then "1" else "0")
   | ["PRIO"] => " ".intercalate (c.hirs.toList.map fun h => toString h.complexity)
-  | ["NULLABLE"] => " ".intercalate (c.hirs.toList.map fun h => if h.hasLook then "L" else if nullable h.lower then "1" else "0")
+  | ["NULLABLE"] => " ".intercalate (c.hirs.toList.map fun h =>
+      if h.hasLook then
+        (if !LK.looksOK h then "L" else
+          let r := LK.lowerL h
+          if LK.allCls.any (fun p => LK.allCls.any fun n => LK.nullableC p n r) then "1" else "0")
+      else if nullable h.lower then "1" else "0")
   | _ => "BADQ"
 
 /-! ## C18: attribute-argument tokenizer model -/
